@@ -31,9 +31,9 @@ def hostSr1Go (pk _m _sg : Bytes) : Bool := (rDecode pk).isSome
 def hostSr2Go (pk m sg : Bytes) : Bool :=
   if pk == zeros32 then hostSr1Go pk m sg else srVerifyGo pk m sg
 
-/-- `ext_crypto_ecdsa_verify_version_2` as written: BLAKE2b-256 of the message, plain (low-s) ECDSA
-    verification of the first 64 signature bytes; the recovery id is never read -/
-def hostEcvGo (pub m sg : Bytes) : Bool := ecdsaVerify pub (blake2b 32 m) (sg.take 64)
+/-- the queueing branch of `ext_crypto_ecdsa_verify_version_2` (dead in production): BLAKE2b-256 of the
+    message, plain (low-s) ECDSA verification of the first 64 signature bytes -/
+def hostEcvQueued (pub m sg : Bytes) : Bool := ecdsaVerify pub (blake2b 32 m) (sg.take 64)
 
 /-- Substrate `ecdsa::Pair::verify`: recover the key from the 65-byte signature (recovery id 0..3, no
     27 offset) over BLAKE2b-256 of the message and compare its compressed form with the given key -/
@@ -43,13 +43,26 @@ def hostEcvRef (pub m sg : Bytes) : Bool :=
   | some q => ((if natOfBE (q.drop 32) % 2 == 1 then 3 else 2) :: q.take 32) == pub
   | none => false
 
+/-- `ext_crypto_ecdsa_verify_version_2` as written (since fix 3): the 33 key bytes must decompress, then
+    recover-and-compare as Substrate does -/
+def hostEcvGo (pub m sg : Bytes) : Bool := (skParsePub pub).isSome && hostEcvRef pub m sg
+
 def compressQ (q : Bytes) : Bytes := (if natOfBE (q.drop 32) % 2 == 1 then 3 else 2) :: q.take 32
 
-/-- SCALE `Result<[u8; N], EcdsaVerifyError>` as gossamer writes it: `00 ‖ key` or the single byte `01` -/
+/-- `ecdsaVerifyError` of imports.go: the variant of sp_io::EcdsaVerifyError (BadRS = 0, BadV = 1,
+    BadSignature = 2) for a 65-byte signature that did not recover -/
+def ecdsaErrCode (sg : Bytes) : UInt8 :=
+  let v0 := (sg.getD 64 0).toNat
+  let v := if v0 ≥ 27 then v0 - 27 else v0
+  if v > 3 then 1
+  else if natOfBE (sg.take 32) ≥ skN || natOfBE ((sg.drop 32).take 32) ≥ skN then 0
+  else 2
+
+/-- SCALE `Result<[u8; N], EcdsaVerifyError>` as gossamer writes it: `00 ‖ key` or `01 ‖ variant` -/
 def hostRecoverGo (compressed : Bool) (m sg : Bytes) : Bytes :=
   match ecdsaRecover m sg with
   | some q => 0 :: (if compressed then compressQ q else q)
-  | none => [1]
+  | none => [1, ecdsaErrCode sg]
 
 /-- the same as Substrate's `secp256k1_ecdsa_recover(_compressed)`: the error carries its variant
     (BadRS = 0, BadV = 1, BadSignature = 2); version 1 parses r and s "overflowing" (reduced mod n),
